@@ -5,14 +5,22 @@ import os
 import numpy as np
 os.environ.setdefault('NUMBA_CACHE_DIR', os.path.join(os.path.dirname(os.path.dirname(os.path.abspath(__file__))), '.cache', 'numba_C04'))   # see props/C08.py
 from fractions import Fraction as F
-from vf import q, qlist, clist, cbool, cnat, copt, frac, fr_json
+from vf import q, qlist, clist, cbool, cnat, copt, frac, fr_json, VERIF, REPO
 import C03
 
 ID = 'C04'
 COQ_DIR = 'C04'
 EXTRA_COQ_DIRS = ('C03', 'C08')
-COQ_HEADER = 'From V Require Import Common.Num C03.Model C04.Model.\nOpen Scope Q_scope.'
-MODEL_FILES = ('Model.v',)
+COQ_HEADER = 'From V Require Import Common.Num C03.Model C04.KBase C04.Model.\nOpen Scope Q_scope.'
+MODEL_FILES = ('KBase.v', 'Model.v')
+
+def translate():
+    """tie T: regenerate coq/C04/Gen_kernels.v from the current source; Proofs.v proves generated = hand-written by reflexivity"""
+    import importlib.util
+    spec = importlib.util.spec_from_file_location('C04_kernels', os.path.join(VERIF, 'tr', 'C04_kernels.py'))
+    m = importlib.util.module_from_spec(spec)
+    spec.loader.exec_module(m)
+    return m.generate(REPO)
 CASE_TIMEOUT = 60
 RULE = ('the VLE cases of C03 (every specification pair; stubbed solvers with adversarial outputs and real solvers replayed) compared on flows AND T, P; '
         'plus compute_phase_fraction_2N.py_func on dyadic (z1, z2, K1, K2) incl. K = 1 (zero denominator) against the Gallina closed form; '
@@ -22,7 +30,9 @@ RULE = ('the VLE cases of C03 (every specification pair; stubbed solvers with ad
 ASSUMPTIONS = C03.ASSUMPTIONS[:3] + [
     'vapour fraction met within solver resolution: flexsolve.IQ_interpolation contract, not proved (measured by oracle())',
     'iso-fugacity at the solver tolerance rather than at an exact fixed point: flexsolve.aitken contract, not proved here']
-TRUSTED = ['wrapper model coq/C03/Model.v hand-written from vle.py (as repaired by pending_fixes/C04_1..3); kernels coq/C04/Model.v hand-written from binary_phase_fraction.py / vle.py']
+TRUSTED = ['wrapper model coq/C03/Model.v hand-written from vle.py (as repaired by pending_fixes/C04_1..3)',
+           'kernels: tr/C04_kernels.py (python ast -> Gallina, fail-closed subset) regenerates coq/C04/Gen_kernels.v from binary_phase_fraction.py / vle.py on every run; '
+           'generated = hand-written is proved by reflexivity (C04_generated_kernels_agree); the stand-in correspondence runs the same functions against the code']
 
 KS = [0.5, 2., 1., 0.25, 4., 1.5, 0.75, 2. ** -40, 3.]
 ZS = [0.5, 0.25, 0.75, 0., 1., 0.125, 2.]
@@ -193,15 +203,14 @@ def coq_iter(case, out):
     a, b = case['E']; c, d = case['L']; g0, g1 = case['gam']; p0, p1 = case['phi']
     n = case['n']
     E = f'(std_E {q(a)} {q(b)})'; L = f'(std_L {q(c)} {q(d)})'
-    if n == 2:
-        w = f'(mkw2 {q(case["x"][0])} {q(case["x"][1])} {q(case["V"])} {q(case["l"][0])} {q(case["l"][1])})'
-        exp = 'None' if out['w'] is None else '(Some (mkw2 ' + ' '.join(q(v) for v in out['w']) + '))'
-        return (f'(iter2n_check (iter2n {E} {L} (std_G2 {q(case["pcf"][0])} {q(case["pcf"][1])} {q(g0)} {q(g1)}) (std_P2 {q(p0)} {q(p1)}) '
-                f'{q(case["z"][0])} {q(case["z"][1])} {w}) {exp})')
+    fns = f'{E} {L} (std_gamma {q(g0)} {q(g1)}) (std_phi {q(p0)} {q(p1)})'
     w = f'(mkwn {qlist(case["x"])} {q(case["V"])} {qlist(case["l"])})'
     exp = 'None' if out['w'] is None else f'(Some (mkwn {qlist(out["w"][:n])} {q(out["w"][n])} {qlist(out["w"][n + 1:])}))'
-    return (f'(itern_check (itern {E} {L} (std_Gn {qlist(case["pcf"])} {q(g0)} {q(g1)}) (std_Pn {q(p0)} {q(p1)}) '
-            f'(fun _ _ _ => {q(case["Vret"])}) {qlist(case["z"])} {w}) {exp})')
+    tail = f'{w} {qlist(case["pcf"])} {q(350.)} {q(101325.)} {qlist(case["z"])}'
+    if n == 2:
+        return f'(itern_check (iter2n {fns} {tail}) {exp})'
+    return f'(itern_check (itern {fns} (fun _ _ _ _ _ => {q(case["Vret"])}) {tail} 0 0) {exp})'
+
 
 def run_impl(case):
     if case['kind'] == 'rr2':
